@@ -632,8 +632,15 @@ class Sim(object):
         old_tempdir = tempfile.tempdir
         try:
             tmp = os.path.join(self.sandbox, 'tmp')
-            os.mkdir(tmp)
+            if self.sc.get('tmp_link'):
+                # the temporary location is reached through a symbolic link (as /tmp is on some systems)
+                os.mkdir(os.path.join(self.sandbox, 'tmp_real'))
+                os.symlink(os.path.join(self.sandbox, 'tmp_real'), tmp)
+            else:
+                os.mkdir(tmp)
             self.tmp = tmp
+            if self.sc.get('clock0'):
+                self.reactor.advance(self.sc['clock0'])      # the reactor has been running for a while before launch()
             self.caller_dir = None
             cd = self.sc.get('caller_dir')
             if cd:
@@ -862,7 +869,8 @@ def scenario(i, **over):
     """variant number i of the scenario parameters (mixed-radix so that neighbours differ in several)"""
     sc = {'caller_dir': DIRS[i % 3], 'auth': AUTHS[(i // 3) % 3], 'own': OWNS[(i // 9) % 3],
           'timeout': TIMEOUT, 'kill_on_stderr': True, 'glue': None, 'seg': 'whole' if (i // 27) % 2 == 0 else 'lines',
-          'control_port': 9051 if (i // 2) % 2 == 0 else None, 'rseed': i}
+          'control_port': 9051 if (i // 2) % 2 == 0 else None, 'rseed': i,
+          'tmp_link': (i // 5) % 2 == 1, 'clock0': [0, 1000, 7][(i // 4) % 3]}
     sc.update(over)
     return sc
 
@@ -957,7 +965,7 @@ def random_history(rnd):
           'own': rnd.choice(OWNS + [{}, {}]), 'timeout': rnd.choice([TIMEOUT, TIMEOUT, None]),
           'kill_on_stderr': rnd.random() < 0.5, 'glue': rnd.choice([None, None, 100, 50]),
           'seg': rnd.choice(['whole', 'lines']), 'control_port': rnd.choice([9051, None]),
-          'rseed': rnd.randrange(1 << 30)}
+          'rseed': rnd.randrange(1 << 30), 'tmp_link': rnd.random() < 0.3, 'clock0': rnd.choice([0, 0, 1000, 86400])}
     n = rnd.randint(6, 14)
     evs = []
     script = OUT_PRE + OUT_LISTEN + OUT_OPENED + OUT_B50
@@ -1037,5 +1045,6 @@ def twin(tier, seed):
                       'failure + retry; stderr with/without kill; listener line split at every%s offset; auth rejected; no timeout; '
                       'progress<100 and other events; exited/ended apart) + %d seeded random histories of 6-14 events; scenario variants '
                       'cycle {no/existing/missing caller directory} x {SAFECOOKIE, NULL, COOKIE} x {ownership commands ok/rejected} x '
-                      '{replies whole/line-wise} x {TCP/unix control port}'
+                      '{replies whole/line-wise} x {TCP/unix control port} x {temporary location plain / behind a symlink} x '
+                      '{reactor clock 0 / 7 / 1000 s at launch}'
                       % (n_sys, len(STOPS), '' if tier != 'quick' else ' 4th', evaluations - n_sys)}
